@@ -8,11 +8,13 @@
 (* invariants say that what every rank ends up with is the serial value.      *)
 EXTENDS Integers, Sequences, FiniteSets, FiniteSetsExt, TLC, Json
 
-CONSTANTS R, MaxN, MaxV
+CONSTANTS R, MinN, MaxN, NegV, MaxV   \* MinN < R: some ranks own nothing; values -NegV..MaxV (negative data for max / mean)
+MinV == 0 - NegV
 
 Ranks == 0..(R - 1)
+NoVal == MinV - 1          \* the contribution of a rank that owns nothing to a maximum
 
-VARIABLES garr,      \* global array (values 1..MaxV, e.g. trajectory lengths)
+VARIABLES garr,      \* global array (values MinV..MaxV; positive for assemble, whose arrays are trajectory lengths)
           nloc,      \* per rank: number of elements of an arbitrary (not necessarily packed) local array
           op,        \* routine under way: "assemble" | "max" | "mean" | "randind"
           arrived, contrib, result, gidx, pc
@@ -24,9 +26,11 @@ SumSeq(s) == IF s = <<>> THEN 0 ELSE Head(s) + SumSeq(Tail(s))
 Local(r) == [j \in 1..((Len(garr) - r + R - 1) \div R) |-> garr[r + 1 + (j - 1) * R]]   \* garr[r::R]
 
 Init ==
-  /\ garr \in UNION {[1..n -> 1..MaxV] : n \in R..MaxN}          \* at least one element per rank
+  /\ garr \in UNION {[1..n -> MinV..MaxV] : n \in MinN..MaxN}   \* n < R: the last ranks own nothing
   /\ nloc \in [Ranks -> 0..2] /\ SumSeq([j \in 1..R |-> nloc[j - 1]]) >= 1
   /\ op \in {"assemble", "max", "mean", "randind"}
+  /\ (op = "assemble" => \A i \in DOMAIN garr : garr[i] >= 1)    \* documented for arrays of lengths
+  /\ (op = "randind" => Len(garr) = MaxN /\ \A i \in DOMAIN garr : garr[i] = MaxV)   \* garr is not an input of randind
   /\ arrived = {} /\ contrib = [r \in Ranks |-> <<>>] /\ result = [r \in Ranks |-> <<>>]
   /\ gidx \in 0..(SumSeq([j \in 1..R |-> nloc[j - 1]]) - 1)     \* the index rank 0 draws (any)
   /\ pc = "run"
@@ -36,7 +40,7 @@ Arrive(r) ==
   /\ arrived' = arrived \cup {r}
   /\ contrib' = [contrib EXCEPT ![r] =
         CASE op = "assemble" -> Local(r)
-          [] op = "max" -> Max({Local(r)[j] : j \in DOMAIN Local(r)})
+          [] op = "max" -> IF Local(r) = <<>> THEN NoVal ELSE Max({Local(r)[j] : j \in DOMAIN Local(r)})
           [] op = "mean" -> <<SumSeq(Local(r)), Len(Local(r))>>
           [] op = "randind" -> nloc[r]]
   /\ UNCHANGED <<garr, nloc, op, result, gidx, pc>>
@@ -56,7 +60,7 @@ Complete ==
   /\ pc = "run" /\ arrived = Ranks
   /\ result' = [r \in Ranks |->
         CASE op = "assemble" -> [i \in 1..Len(garr) |-> contrib[(i - 1) % R][((i - 1) \div R) + 1]]
-          [] op = "max" -> Max({contrib[q] : q \in Ranks})
+          [] op = "max" -> Max({contrib[q] : q \in {z \in Ranks : contrib[z] # NoVal}})   \* a rank without data contributes nothing
           [] op = "mean" -> <<SumSeq([j \in 1..R |-> contrib[j - 1][1]]), SumSeq([j \in 1..R |-> contrib[j - 1][2]])>>
           [] op = "randind" -> RandMap(gidx)]
   /\ pc' = "done" /\ arrived' = {}
